@@ -189,7 +189,7 @@ func (s *RandomSched) Join(w *World, choices []Choice) int {
 		last := w.Delivered[len(w.Delivered)-1]
 		var same []int
 		for i, c := range choices {
-			if c.Link.To == last.To {
+			if c.Link != nil && c.Link.To == last.To {
 				same = append(same, i)
 			}
 		}
